@@ -151,7 +151,12 @@ func verifC18run(p *vProfile) {
 		info3 := ProvideInfo{ID: 999, Outputs: []*Output{sentinel3}}
 		rg := &vReg{f: g}
 		opts3 := append(g.provideOpts(rg, nil), FillProvideInfo(&info3))
-		o3 := vGuard(func() error { return c.Provide(mk(g), opts3...) })
+		target := c.scope
+		if verifNdBool("g.child") {
+			// a sibling registration: no conflict with the first constructor's keys
+			target = c.Scope("child")
+		}
+		o3 := vGuard(func() error { return target.Provide(mk(g), opts3...) })
 		verifObserve("provide2:" + vClassNames[o3.class])
 		if o3.class == vcOK {
 			h.checkInputs(g, info3.Inputs)
@@ -216,7 +221,13 @@ func verifC18d() { // a second constructor that may close a cycle with the first
 		maxScopes: 1, maxParams: 1, maxResults: 1, pForms: 2, rForms: 1, names: 2, optional: true, faults: 1, invParams: 0, lateRegs: 1})
 }
 
+func verifC18e() { // two constructors with result objects (possibly the same Out struct type) and different As lists
+	verifC18run(&vProfile{name: "C18e", clauses: []string{"C18."},
+		maxScopes: 1, maxParams: 0, maxResults: 1, pForms: 1, rForms: 2, names: 2, as: true, asObj: true, faults: 1, invParams: 0, lateRegs: 1})
+}
+
 func init() {
+	verifEntries["verifC18e"] = verifC18e
 	verifEntries["verifC18d"] = verifC18d
 	verifEntries["verifC18a"] = verifC18a
 	verifEntries["verifC18b"] = verifC18b
